@@ -184,7 +184,7 @@ def c07(ck, thorough):
     apalache_inductive(ck, "ACBufferIdx", "c07_idx")
     generated_streams(ck, "c07_gen", maxstream=4 if thorough else 3, faults=False)
     streams(ck, "c07_enum", "enum", maxstream=5 if thorough else 4, sizes="1,2,3")
-    streams(ck, "c07_rand", "rand", scale=12 if thorough else 2)
+    streams(ck, "c07_rand", "rand", scale=12 if thorough else 2, long=True)
 
 
 def c08(ck, thorough):
